@@ -126,7 +126,7 @@ Section Scope.
       replace (idx =? size) with false by (symmetry; lia).
       rewrite Hrk. rewrite (skey_eq_spec sk q Hok), Hsk.
       unfold kmatch in Hn0. cbn [fst] in Hn0. rewrite Ekk in Hn0. rewrite Hn0.
-      rewrite (skip_exact _ _ _ Hv).
+      rewrite (skip_at_exact _ _ _ Hv).
       pose proof (decode_bytes _ _ _ Hk Hb) as Hbv. pose proof (decode_bytes _ _ _ Hv Hbv) as Hb'.
       destruct (IH fuel (c + 1) start size (idx + 1) (Some sk) p' pA Hrest Hb' Hs' Hn') as [key' E]; try lia.
       exists key'. unfold set_index, set_key. cbn [o_index o_start o_size o_key]. rewrite E. f_equal; [lia | f_equal; lia].
@@ -358,7 +358,7 @@ Section Scope.
         destruct (skey_eq sk q) eqn:Eq.
         + exists true, st0, p0. split; [reflexivity|].
           rewrite (at_member_match q _ _ _ _ sk HM Hkey Eq). split; [reflexivity|]. exists pn. exact HM.
-        + unfold reset_key. rewrite Hkey. rewrite (skip_exact _ _ _ Hv).
+        + unfold reset_key. rewrite Hkey. rewrite (skip_at_exact _ _ _ Hv).
           pose proof (after_member _ _ _ _ HM) as Hc.
           destruct HM as [kvs1 km vm0 kvs2 pk p1 pn0 sk0 E H1 Hk Hv0 H2 Hkd Hok].
           unfold on_finish_child in *. cbn [o_start o_size o_index] in *.
@@ -371,22 +371,22 @@ Section Scope.
 
     (* ---------- the destructor ---------- *)
     Lemma close_loop_spec : forall kvs2 fuel c p, olayout p kvs2 rend -> (length kvs2 < fuel)%nat ->
-      c + N.of_nat (length kvs2) = size -> close_loop fuel c size p = SOk rend.
+      c + N.of_nat (length kvs2) = size -> close_loop fuel c size p = CDone rend false.
     Proof.
       induction kvs2 as [|[k v] kvs2 IH]; intros fuel c p HL Hf Hc; (destruct fuel as [|f]; [cbn [length] in Hf; lia|]); cbn [close_loop].
       - inversion HL; subst. replace (c <? size) with false by (symmetry; cbn [length] in Hc; lia). reflexivity.
       - inversion HL as [|? ? pv ? p' ? ? Hk Hv Hrest]; subst. cbn [length] in Hc, Hf.
         replace (c <? size) with true by (symmetry; lia).
-        rewrite (skip_exact _ _ _ Hk), (skip_exact _ _ _ Hv). apply IH; [exact Hrest | lia | lia].
+        rewrite (skip_at_exact _ _ _ Hk), (skip_at_exact _ _ _ Hv). apply IH; [exact Hrest | lia | lia].
     Qed.
 
-    Lemma close_spec st p : cursor st p -> close_obj st p = SOk rend.
+    Lemma close_spec st p : cursor st p -> close_obj st p = CDone rend false.
     Proof.
       intros [kvs1 kvs2 p0 E H1 H2 | st0 p0 vm pn HM].
       - unfold close_obj, reset_key. cbn [o_key o_index o_size].
         apply (close_loop_spec kvs2); [exact H2 | pose proof (olayout_length _ _ _ H2); lia | subst size; rewrite E, app_length; lia].
       - destruct HM as [kvs1 km vm0 kvs2 pk p1 pn0 sk0 E H1 Hk Hv0 H2 Hkd Hok].
-        unfold close_obj, reset_key. cbn [o_key]. rewrite (skip_exact _ _ _ Hv0).
+        unfold close_obj, reset_key. cbn [o_key]. rewrite (skip_at_exact _ _ _ Hv0).
         unfold on_finish_child. cbn [o_index o_size o_start].
         apply (close_loop_spec kvs2); [exact H2 | pose proof (olayout_length _ _ _ H2); lia | subst size; rewrite E, app_length; cbn [length]; lia].
     Qed.
@@ -408,7 +408,7 @@ Section Scope.
         pose proof Hsup as Hs. apply supported_app in Hs. destruct Hs as [_ Hs].
         inversion Hs as [|? ? Hs0 _]; subst. cbn [fst] in Hs0. destruct (keyden k) as [kk|] eqn:Ekk; [|congruence].
         destruct (read_key_on narrow widen o p k pv kk (pos_bytes _ _ H1) Hk Ekk) as [sk [Hrk [Hsk Hok]]].
-        rewrite Hrk. unfold reset_key, set_key. cbn [o_key]. rewrite (skip_exact _ _ _ Hv).
+        rewrite Hrk. unfold reset_key, set_key. cbn [o_key]. rewrite (skip_at_exact _ _ _ Hv).
         unfold on_finish_child. cbn [o_start o_size o_index].
         replace (N.of_nat (length kvs1) + 1) with (N.of_nat (length (kvs1 ++ [(k, v)]))) by (rewrite app_length; cbn [length]; lia).
         rewrite (IH f (kvs1 ++ [(k, v)]) p' (acc ++ [key_of_skey sk])).
